@@ -11,8 +11,9 @@ PLAN = {
                 slices=["comp", "mark"], ref="§7 C02"),
     "C10": dict(families=[("comp", 36, 400)], oracle=lambda h: [f for f in T.oracle_components(h) if f[0] == "C10"],
                 slices=["comp"], ref="§7 C10"),
-    "C09": dict(families=[("comp", 30, 300), ("ent", 16, 160), ("asset", 18, 180)],
+    "C09": dict(families=[("comp", 30, 300), ("ent", 16, 160), ("asset", 18, 180), ("parent", 14, 140)],
                 oracle=lambda h: (T.oracle_asset_traffic(h) if h.family == "asset" else
+                                  [("C09",) + f[1:] for f in T.oracle_parents(h) if "did not terminate" in f[1]] if h.family == "parent" else
                                   [f for f in (T.oracle_components(h) if h.family != "ent" else T.oracle_entities(h)) if f[0] == "C09"]),
                 slices=["comp"], slice_families=("comp", "ent"), ref="§7 C09"),
     # join histories (new clients joining while others spawn / despawn): the entity-set part of the join oracle, for
